@@ -4,10 +4,12 @@
 set -e
 cd "$(dirname "$0")"
 mkdir -p .work/bin evidence replays coq/Run
-# the two translators first: the inventories under coq/Gen are regenerated from /repo before anything is compiled
+# the three translators first: the inventories under coq/Gen are regenerated from /repo before anything is compiled
 (cd tools/gotools && GOFLAGS=-mod=mod GOPROXY=off GOSUMDB=off GOTOOLCHAIN=local go build -o ../../.work/bin/mapranges ./mapranges)
 (cd tools/gotools && GOFLAGS=-mod=mod GOPROXY=off GOSUMDB=off GOTOOLCHAIN=local go build -o ../../.work/bin/effects ./effects)
+(cd tools/gotools && GOFLAGS=-mod=mod GOPROXY=off GOSUMDB=off GOTOOLCHAIN=local go build -o ../../.work/bin/consts ./consts)
 python3 tools/gen_mapranges.py
+python3 tools/gen_consts.py
 python3 tools/gen_effects.py
 cd coq
 VFILES=$(for d in Base Gen Model Spec Proofs Properties Check; do [ -d $d ] && find $d -name '*.v'; done | sort)
